@@ -1,2 +1,6 @@
 -- Root of the IpcHub library: every property module (models, specs, lemmas come in transitively).
+import IpcHub.Props.C01
+import IpcHub.Props.C02
+import IpcHub.Props.C03
+import IpcHub.Props.C04
 import IpcHub.Props.C16
